@@ -14,10 +14,21 @@ GUARDS = {
     A.READ: ("inner", A.FETCH + "<"),
     A.WRITE: ("inner", A.FETCHMUT + "<"),
 }
-GUARD_MARKS = ("AtomicRef<", "AtomicRefMut<", A.FETCH + "<", A.FETCHMUT + "<", A.READ + "<", A.WRITE + "<", "AtomicRef::", "AtomicRefMut::")
+GUARD_MARKS = ("AtomicRef<", "AtomicRefMut<", A.FETCH + "<", A.FETCHMUT + "<", A.READ + "<", A.WRITE + "<", "AtomicRef::", "AtomicRefMut::",
+               "shred::Fetch<", "shred::FetchMut<", "shred::Read<", "shred::Write<")
 
 
 # ------------------------------------------------------------------ shared: RELEASE
+
+def guard_leaks(body):
+    out = []
+    for bb, c in I.marked_calls(body, I.LEAK_MARKS):
+        t = body.blocks[bb]["term"]
+        tys = " ".join(a.get("place", {}).get("ty", "") for a in t["args"]) + " " + c.inst_path
+        if any(g in tys for g in GUARD_MARKS):
+            out.append((bb, c))
+    return out
+
 
 def release(ctx, report, rule, facts, config):
     """Guards own their borrow, have no Drop impl of their own, and are never leaked."""
@@ -30,12 +41,9 @@ def release(ctx, report, rule, facts, config):
               "custom Drop impl on %s" % drops[0]["self_ty"], site=("%s:%d" % (drops[0]["span"]["file"], drops[0]["span"]["line"])) if drops else None, config=config)
     n = 0
     for b in sorted(facts.bodies.values(), key=lambda b: b.key):
-        for bb, c in I.marked_calls(b, I.LEAK_MARKS):
-            t = b.blocks[bb]["term"]
-            tys = " ".join(a.get("place", {}).get("ty", "") for a in t["args"]) + " " + c.inst_path
-            if any(g in tys for g in GUARD_MARKS):
-                n += 1
-                report.ob(rule, "leak/%s" % b.qname, False, "a borrow guard is leaked through %s: the resource stays borrowed forever" % c.short(), site=b.loc(bb), config=config)
+        for bb, c in guard_leaks(b):
+            n += 1
+            report.ob(rule, "leak/%s" % b.qname, False, "a borrow guard is leaked through %s: the resource stays borrowed forever" % c.short(), site=b.loc(bb), config=config)
     report.ob(rule, "no-guard-leak", n == 0, "no mem::forget / ManuallyDrop / leak / into_raw on a guard type in the crate", config=config)
 
 
